@@ -311,9 +311,11 @@ def plan_C03(w):
         kinds = [("ordA", dict(traces=4, n=0, steps=70)), ("ordB", dict(traces=2, n=4, steps=110)), ("ordF", dict(traces=3, sched="funky"))]
     else:
         kinds = [("ord%d" % i, dict(traces=6, n=0, steps=160, arg="thorough")) for i in range(4)] + \
-                [("ordN4", dict(traces=4, n=4, steps=260, arg="thorough")), ("ordN7", dict(traces=2, n=7, steps=300, arg="thorough")),
+                [("ordN4a", dict(traces=2, n=4, steps=200, arg="thorough")), ("ordN4b", dict(traces=2, n=4, steps=200, arg="thorough")),
+                 ("ordN7", dict(traces=1, n=7, steps=220, arg="thorough")),
                  ("ordF", dict(traces=12, sched="funky", arg="thorough"))]
-    traces, sums = drive_all(w, gossip_specs(w, kinds), mode="orders")
+    # (the drivers are single-threaded and the thorough variants re-feed every DAG many times: run them side by side)
+    traces, sums = drive_par(w, gossip_specs(w, kinds), "orders", par=7, timeout=3000) if not q else drive_all(w, gossip_specs(w, kinds), mode="orders")
     g = [("gsp", dict(traces=3 if q else 10, n=0, steps=100 if q else 220, sched="mix"))]
     t2, s2 = drive_all(w, gossip_specs(w, g))
     tvs = w.validate_many(traces + t2, par=6)
